@@ -146,7 +146,7 @@ pub const REGEX_POOL: &[(&str, usize)] = &[
 
 const STR_POOL: &[&str] = &[
     "", "a", "src/pkg/mod.py", "héllo wörld", "x1 y2 z", "a_b__c", "日本 語", "{}", "A.b c.d",
-    "tab\there", "line\nbreak", "quote\"d", "back\\slash", "foo(bar)",
+    "tab\there", "line\nbreak", "quote\"d", "back\\slash", "foo(bar)", "astral 😀 text", "𝓧y",
 ];
 
 struct Gen<'r> {
